@@ -77,7 +77,7 @@ def call_filter(pystog, case, R=None, Q=None, gr=None, y=None, dgr="same", dy="s
     kw = option_kwargs(case)
     a = case["dgr"] if isinstance(dgr, str) else dgr
     b = case["dy"] if isinstance(dy, str) else dy
-    out = f(np.array(case["r"], float), np.array(case["gr"] if gr is None else gr, float), np.array(case["q"], float),
+    out = f(np.array(case["r"], np.float32 if case.get("r_f32") else float), np.array(case["gr"] if gr is None else gr, float), np.array(case["q"], float),
             np.array(case["y"] if y is None else y, float), case["cutoff"],
             None if a is None else np.array(a, float), None if b is None else np.array(b, float), **kw)
     return [None if o is None else np.asarray(o, float) for o in out]
@@ -104,6 +104,8 @@ def run_filter(pystog, case):
 
 
 def filter_to_coq(case, res):
+    if case.get("r_f32"):       # a single-precision r grid is decided by the oracle alone (the model computes in binary64 throughout)
+        return None
     if "exception" in res:
         out = [[float("nan")]] * 9
     else:
